@@ -1010,6 +1010,9 @@ package main
 //@   requires [C13,assumed] validators_registered: forall m string :: (m in globals.validators) ==> validatorConfigured(m)
 //@   modifies inferred
 //@   assert at call Check [C13] validator_exists: $0 != nil
+// (a credential counts as validated by this call only if its validator accepted the response)
+//@   loop 2
+//@     iterates [C11] only_accepted_responses_validate: (cr.Method in methods) && !prev(cr.Method in methods) ==> called("Check") > prev(called("Check")) && isnil(err)
 
 // C13/C14: the hub loop. Every request taken from the `meta` queue ({get}/{set} by a session that is not attached) is
 // handed to a reply goroutine (the reply functions answer every request: their own contracts), and every
